@@ -262,6 +262,26 @@ async fn main(plan: Plan) -> Outcome {
     } else {
         pb.retry_policy(Arc::new(DefaultRetryPolicy::new()))
     };
+    // 1 in 4 runs: a latency-aware default policy, tuned so that it reacts within a run (one
+    // measurement suffices, averages are refreshed every 10 ms, a node 1.2 times slower than
+    // the fastest is penalised, for 150 ms): the plan's order then depends on the time at
+    // which it is asked - it still names every node once.
+    if tape::chance("c13:latency_aware", 1, 4) {
+        use scylla::policies::load_balancing::{DefaultPolicy, LatencyAwarenessBuilder};
+        pb = pb.load_balancing_policy(
+            DefaultPolicy::builder()
+                .latency_awareness(
+                    LatencyAwarenessBuilder::new()
+                        .minimum_measurements(1)
+                        .update_rate(Duration::from_millis(10))
+                        .exclusion_threshold(1.2)
+                        .retry_period(Duration::from_millis(150))
+                        .scale(Duration::from_millis(20)),
+                )
+                .build(),
+        );
+        out.count("latency_aware_runs", 1);
+    }
     let cfg = SessionCfg {
         contact_nodes: vec![0],
         pool: PoolSize::PerHost(NonZeroUsize::new(1).unwrap()),
